@@ -126,6 +126,10 @@ def check_add(rec: core.Recorder, *, op: str, a: dict, b: dict, r: dict, sign: i
                 continue
             va, vb, vr = a[k], b[k], r[k]
             if not a["keep_missed"] or not b.get("keep_missed", True):
+                # one operand did not keep track of what it missed: the result cannot know either (in either order)
+                if r.get("keep_missed", False) and k in ("underflow", "overflow") and vr != "nan":
+                    fail(f"{k}: an operand that does not keep its missed values was added, yet the result reports a known number", [k, "keep_missed"], a=va, b=vb, result=vr,
+                         keep_missed=[a["keep_missed"], b.get("keep_missed", True), r.get("keep_missed")])
                 continue
             if va == "nan" or vb == "nan":
                 if vr != "nan":
